@@ -86,6 +86,7 @@ type Interp struct {
 	elemOrigin map[*Value][]Value
 	funcsSeen  map[*ssa.Function]bool
 	tolerant   int
+	loopBound  int32
 	patched    map[*ssa.Global]bool
 
 	// results of the path
@@ -414,6 +415,10 @@ func (fr *frame) runBlocks() {
 	for {
 		b := fr.block
 		fr.visits[b.Index]++
+		if in.loopBound > 0 && fr.visits[b.Index] > in.loopBound {
+			in.reportViolation("check", fmt.Sprintf("loop does not terminate within %d iterations (hang)", in.loopBound), in.where(), in.stack())
+			panic(&pathEnd{kind: "violation"})
+		}
 		if fr.visits[b.Index] > in.ex.MaxBlockVisits {
 			panic(&pathEnd{kind: "inconclusive", reason: fmt.Sprintf("unwinding bound %d exceeded in %s block %d", in.ex.MaxBlockVisits, fr.fn, b.Index)})
 		}
